@@ -99,7 +99,7 @@ def probe(feats, guard, lane, ref):
                 raise Violation("transcript", feats, guard, cmd + " && run", f"KEM-ALLOC {k} digest {ref[('KEM-ALLOC', k)]}", d[("KEM-ALLOC", k)])
     counters = dict(builds=1, transcripts=len(kems))
     # the allocating API must be absent without alloc|std
-    if not has_alloc and ("x25519" in feats or "p256" in feats):
+    if not has_alloc and any(k in feats for k in ("x25519", "p256", "p384", "p521")):
         fs2 = fstr(feats, ["need_alloc_api"])
         cmd2 = f"cargo build --offline --no-default-features --features '{fs2}'"
         rc, out, err = sh(cmd2, PROBE, e)
